@@ -717,6 +717,7 @@ class Origin:
         self.aggs = []  # aggregate extra dicts crossed
         self.unknown = False
         self.upvars = set()
+        self.index_locals = set()  # locals used as `[i]` index on the way
 
     def call_names(self):
         s = set()
@@ -755,6 +756,9 @@ def origin_of_operand(body, op, through_calls=True, max_steps=4000, stop_calls=(
     def push_place(pl):
         for f in place_fields(pl):
             o.fields.add(f)
+        for p in pl[1:]:
+            if isinstance(p, list) and p[0] == "i":
+                o.index_locals.add(p[1])
         # field selection directly on the local (before any deref): `_t.1`, `(_e as Some).0`
         sel = None
         for p in pl[1:]:
